@@ -161,7 +161,12 @@ def gen_case(rnd, depth):
     wh = TRUE
     if rnd.random() < 0.3:
         wh = ["cmp", rnd.choice(["lt", "ge", "ne"]), col("s0"), ["str", "b"]]
-    q = select(sel, table("t"), wh=wh)
+    hv = TRUE
+    if rnd.random() < 0.1:
+        # a trailing HAVING on a query without GROUP BY: the engine reads it and applies nothing (one row per row that passed WHERE)
+        hv = ["cmp", rnd.choice(["lt", "ge", "ne", "eq"]), col(rnd.choice(["i0", "i1"])), num(rnd.choice([0, 1, 2, 3]))]
+    q = select(sel, table("t"), wh=wh, hv=hv)
+    respell(q, rnd, 0.1)
     c = mk_case({"t": rows}, q, mode="seq")
     if rnd.random() < 0.15:
         # the same document with its integral numbers stored as another Go number kind: plain columns, comparisons and CASE
@@ -226,7 +231,8 @@ def explore(chk, rnd, tier):
     done = 0
     while done < n and not chk.violations:
         m = min(5000, n - done)
-        run_cases(chk, [gen_case(rnd, rnd.randint(1, depth)) for _ in range(m)], nontrivial=nontrivial)
+        cases = [gen_case(rnd, rnd.randint(1, depth)) for _ in range(m)]
+        run_cases(chk, cases, nontrivial=nontrivial)
         run_cases(chk, [gen_selector_case(rnd) for _ in range(m // 5)], nontrivial=nontrivial, label="sel:")
         done += m
 
